@@ -1,8 +1,12 @@
 /-
-  Property C14 — the NumPy-like target's slice re-synthesis round-trips.
+  Property C14 — the NumPy-like target.
+  * slice re-synthesis round-trips (this file);
+  * the generator (`NumpyCodegenMapper`) is sound, refuses what it must, keeps outputs with their
+    keys (`PtProofs.C14PyGen`: `Py.pygen_sound`, `Py.pygen_refuses`, `Py.outputs_aligned`).
 -/
 import PtModel.Slice
 import PtProofs.SliceLemmas
+import PtProofs.C14PyGen
 namespace Pt
 
 /-- For every normalised slice (any axis length, start, stop, non-zero step) the
